@@ -439,8 +439,11 @@ def main(ctx):
                           MaxOps=5 if quick else 6))]
     for name, consts in ctxs:
         tg = f'c09_{name}_{os.getpid()}'
+        # viewL: the label is part of the state identity - with the plain view
+        # an operation whose successor state coincides with another's
+        # (abort() and close() with nothing left to send) was never printed
         cfg, d = write_cfg(f'_{tg}.cfg', consts, invariants=['EmitOpCtx'],
-                           view=True)
+                           view=True, viewname='viewL')
         scripts, res = tlc.bfs_scripts(SPEC, 'Lifecycle', cfg, tg)
         ctx.require_tlc_ok(f'Lifecycle {name} (operation contexts) {consts}',
                            res)
